@@ -89,6 +89,11 @@ CHECKS = {
    "Key and trust stores (every supported and several unsupported shapes, issuer cycles) truncated at every byte offset and with every block removed are fed to jwt signer, TLS key store, http message signatures and trust store construction and OnChanged; rule-set documents with every node replaced by each of 8 foreign values, keys removed/duplicated and every truncation offset go through ParseRules, the rule-set processor and the file_system provider callback; JWKS/metadata/introspection/identity/authorization/contextualizer responses through the real mechanisms; malformed HTTP and Envoy requests through the assembled services incl. recovery layers; after every case the previous state must still answer and a following valid change must be applied.",
    "Byte contents other than truncations, block removals and the grammar are not explored (that would be fuzzing); resource exhaustion is out of scope; fsnotify itself is replaced by calling the registered listeners (30 cases are confirmed with the real watcher in a process of their own).",
    "DESIGN.md 4 C19"),
+ "C11": ("exploration", "enum",
+   "bounded exhaustive enumeration of mechanism configurations x request pairs (identical, differing in exactly one component, boundary-shifted) x Go map iteration orders on the real caching mechanisms with pure-function in-process remotes and a recording cache; differential oracle cache-primed versus empty cache",
+   "For eight mechanism families (remote authorizer, generic contextualizer, generic authenticator, jwt authenticator key cache, introspection, jwt finalizer, client credentials, RFC 7234 http cache) the full product of configurations (0-3 endpoint headers, values, payload templates, forwarded headers/cookies, auth strategies, rule-level overrides) x pair kinds is executed: the result for B with the cache primed by A must equal B's result against an empty cache, and an identical second request must hit the cache with the same key under every map iteration order reachable with <=1 (quick) / <=2 (thorough) deviating iterations.",
+   "Remotes are pure functions of the complete received request, so the influencing set is derived from what was actually sent; maps with more than 8 entries are not exhaustively ordered; pairs only.",
+   "DESIGN.md 4 C11"),
 }
 
 NOT_YET = {
